@@ -7,6 +7,7 @@
    (2) Index/Sched.v: when commits happen (commit interval, savepoint rule),
        resume height from the stored headers, reopen. *)
 From OrdV Require Import Base.Prelude Index.Cache Index.Sched Proofs.Cache_proofs Proofs.Sched_proofs.
+From OrdV Require Index.SatIndex Index.SatCache Properties.C01.
 
 (* (1) For every entry type, every merge operation that is associative with
    [empty] as left unit (what UtxoEntryBuf::merged is on special outpoints),
@@ -46,6 +47,24 @@ Proof.
   repeat split; congruence.
 Qed.
 
+(* (3) The same statement on a concrete index model: the sat index with the code's utxo_cache +
+   table split (Index/SatCache.v), for ANY two commit schedules of the same chain.  Outside the
+   recorded class dup-spent-before-commit (a duplicate txid whose re-created output is spent before
+   the next commit), both runs hold for every outpoint the same sats in the same order, and the
+   same lost sats — because each equals the BIP's assignment (C01_except). *)
+Theorem C12_sat_index_schedule_independent : forall sched1 sched2 c s1 s2,
+  SatCache.run2 sched1 c = Ok s1 -> SatCache.run2 sched2 c = Ok s2 ->
+  SatCache.c_shadow (SatCache.s_c s1) = false -> SatCache.c_shadow (SatCache.s_c s2) = false ->
+  (forall o, option_map SatIndex.flatten (SatCache.view (SatCache.s_c s1) o) =
+             option_map SatIndex.flatten (SatCache.view (SatCache.s_c s2) o)) /\
+  SatIndex.flatten (SatCache.s_lost s1) = SatIndex.flatten (SatCache.s_lost s2).
+Proof.
+  intros sched1 sched2 c s1 s2 R1 R2 F1 F2.
+  destruct (C01.C01_except sched1 c s1 R1 F1) as [U1 L1].
+  destruct (C01.C01_except sched2 c s2 R2 F2) as [U2 L2].
+  split; [intros o; rewrite U1, U2; reflexivity|congruence].
+Qed.
+
 (* Non-vacuity of (1): a two-block run where the second block spends an output
    of the first and appends to a special outpoint, committed after the first
    block or only at the end, gives the same table. *)
@@ -63,3 +82,4 @@ Proof. vm_compute. repeat split. Qed.
 
 Print Assumptions C12_cache_schedule_independent.
 Print Assumptions C12_blocks_schedule_independent.
+Print Assumptions C12_sat_index_schedule_independent.
